@@ -269,6 +269,12 @@ class MapToMolecule(Processor):
                     raise IOError(MultiblockError.format(self.node_to_block[node]))
 
                 correspondence = new_mol.merge_molecule(block)
+                # merging offsets the residue ids of the block by the last residue id,
+                # which is only right for blocks that number their residues from 1
+                resid_shift = min(nx.get_node_attributes(block, "resid").values()) - 1
+                if resid_shift:
+                    for mol_node in correspondence.values():
+                        new_mol.nodes[mol_node]["resid"] -= resid_shift
             # make the residue from the correspondence
             residue = _correspondence_to_residue(meta_molecule,
                                                  new_mol,
